@@ -15,7 +15,7 @@
   returns NULL, which the C code treats as failure; the model does the same.
 -/
 import NngModel.Base.Bytes
-import NngModel.Generated.Consts
+import NngModel.Generated.Base
 import NngModel.Spec.Msg
 
 namespace Nng.Msg
